@@ -308,6 +308,12 @@ def signature(case, msgs):
     return sig
 
 
+def X_digest(o):
+    from .. import explore as X
+
+    return X.digest(o)
+
+
 def _call(x, y, tol):
     try:
         r = x.equals(y, tol)
@@ -375,6 +381,9 @@ def _eval(case):
     if _get(dy, path) == v0:
         return [], {"classes": [], "outcome": "perturb:absorbed", "calls": 0, "nontrivial": False}
     x, y = mk(dx), mk(dy)
+    if k > 0 and X_digest(x) == X_digest(y):
+        # the constructor absorbed the perturbation (an SE(2) angle changed by less than an ulp of pi is wrapped back onto itself)
+        return [], {"classes": [], "outcome": "perturb:absorbed", "calls": 0, "nontrivial": False}
     r1, e1 = _call(x, y, tol)
     r2, e2 = _call(y, x, tol)
     want = "T" if k < 0 else "F"
